@@ -19,11 +19,15 @@ Lemma send_initially_incoming s w : s_incoming (fst (send_initially s w)) = s_in
 Proof. unfold send_initially. destruct (w_type w =? T_CON); reflexivity. Qed.
 Lemma send_message_incoming s r m : s_incoming (fst (send_message s r m)) = s_incoming s.
 Proof.
-  unfold send_message. destruct (lookup_piggy (key_of r) (s_piggy s)) as [[mid due]|].
+  assert (Hplain: s_incoming (fst (let t := if r_con r then T_CON else T_NON in
+        let mid := s_mid s in let s1 := set_mid s (Z.land 65535 (1 + mid)) in let w := mk_wire r t mid m in
+        if (t =? T_CON) && has_backlog s1 (r_remote r) then (append_backlog s1 (r_remote r) w, []) else send_initially s1 w)) = s_incoming s).
+  { cbv zeta. match goal with |- context [if ?c then _ else _] => destruct c end; [reflexivity|].
+    rewrite send_initially_incoming. reflexivity. }
+  unfold send_message. destruct (negb (is_response (code_of m))); [exact Hplain|].
+  destruct (lookup_piggy (key_of r) (s_piggy s)) as [[mid due]|].
   - destruct (suppressed m); rewrite send_initially_incoming; reflexivity.
-  - destruct (suppressed m); [reflexivity|].
-    match goal with |- context [if ?c then _ else _] => destruct c end; [reflexivity|].
-    rewrite send_initially_incoming. reflexivity.
+  - destruct (suppressed m); [reflexivity|exact Hplain].
 Qed.
 Lemma perform_incoming : forall acts s r, s_incoming (fst (fst (perform s r acts))) = s_incoming s.
 Proof.
@@ -598,7 +602,45 @@ Qed.
 (* ---------------------------------------------------------------- from the message layer to the wire *)
 Definition on_wire_for (r : request) (w : wire) : Prop :=
   w_rid w = r_id r /\ w_remote w = r_remote r /\ w_token w = r_token r.
-Lemma send_message_cases s r m :
+Lemma find_backlog_append remote w l :
+  find_backlog remote (backlog_append remote w l) = option_map (fun b => b ++ [w]) (find_backlog remote l).
+Proof.
+  induction l as [|[q b] l IH]; [reflexivity|]. cbn [backlog_append find_backlog].
+  destruct (q =? remote) eqn:Eq; cbn [find_backlog]; rewrite Eq; [reflexivity|exact IH].
+Qed.
+(* the common tail of send_message: own message id, type from the request, NSTART backlog *)
+Definition send_plain (s : state) (r : request) (m : msg) : state * list wire :=
+  let t := if r_con r then T_CON else T_NON in
+  let mid := s_mid s in
+  let s1 := set_mid s (Z.land 65535 (1 + mid)) in
+  let w := mk_wire r t mid m in
+  if (t =? T_CON) && has_backlog s1 (r_remote r) then (append_backlog s1 (r_remote r) w, []) else send_initially s1 w.
+Lemma send_message_unfold s r m :
+  send_message s r m =
+  if negb (is_response (code_of m)) then send_plain s r m
+  else match lookup_piggy (key_of r) (s_piggy s) with
+       | Some (mid, _) =>
+           let s1 := set_piggy s (remove_piggy (key_of r) (s_piggy s)) in
+           if suppressed m then send_initially s1 (empty_ack (r_remote r) mid) else send_initially s1 (mk_wire r T_ACK mid m)
+       | None => if suppressed m then (s, []) else send_plain s r m
+       end.
+Proof. reflexivity. Qed.
+Lemma send_plain_cases s r m :
+  let '(s', out) := send_plain s r m in
+  let w := mk_wire r (if r_con r then T_CON else T_NON) (s_mid s) m in
+  (out = [w] \/ (out = [] /\ r_con r = true /\ has_backlog s (r_remote r) = true /\
+                 find_backlog (r_remote r) (s_backlog s') = option_map (fun b => b ++ [w]) (find_backlog (r_remote r) (s_backlog s)))).
+Proof.
+  unfold send_plain. destruct (r_con r) eqn:Ec.
+  - change (T_CON =? T_CON) with true. cbn [andb].
+    match goal with |- context [has_backlog ?s1 _] => change (has_backlog s1 (r_remote r)) with (has_backlog s (r_remote r)) end.
+    destruct (has_backlog s (r_remote r)) eqn:Eb.
+    + right. split; [reflexivity|]. split; [reflexivity|]. split; [reflexivity|].
+      unfold append_backlog. cbn [s_backlog set_backlog set_mid]. apply find_backlog_append.
+    + left. unfold send_initially. cbn. reflexivity.
+  - left. unfold send_initially. cbn. reflexivity.
+Qed.
+Lemma send_message_cases s r m : is_response (code_of m) = true ->
   let '(s', out) := send_message s r m in
   match lookup_piggy (key_of r) (s_piggy s) with
   | Some (mid, _) =>
@@ -611,23 +653,18 @@ Lemma send_message_cases s r m :
                           find_backlog (r_remote r) (s_backlog s') = option_map (fun b => b ++ [w]) (find_backlog (r_remote r) (s_backlog s))))
   end.
 Proof.
-  unfold send_message. destruct (lookup_piggy (key_of r) (s_piggy s)) as [[mid due]|] eqn:E.
+  intros Hresp. rewrite send_message_unfold, Hresp. cbn [negb].
+  destruct (lookup_piggy (key_of r) (s_piggy s)) as [[mid due]|] eqn:E.
   - assert (Hrm: forall l, lookup_piggy (key_of r) (remove_piggy (key_of r) l) = None).
     { induction l as [|[k v] l IH]; [reflexivity|]. unfold remove_piggy in *. cbn [filter fst].
       destruct (key_eqb (key_of r) k) eqn:Ek; cbn [negb]; [exact IH|]. cbn [lookup_piggy]. rewrite Ek. exact IH. }
     destruct (suppressed m); cbn; split; auto; apply Hrm.
-  - destruct (suppressed m); [split; reflexivity|].
-    destruct (r_con r) eqn:Ec; cbn [andb Z.eqb T_CON T_NON].
-    + change (T_CON =? T_CON) with true. cbn [andb].
-      match goal with |- context [has_backlog ?s1 _] => change (has_backlog s1 (r_remote r)) with (has_backlog s (r_remote r)) end.
-      destruct (has_backlog s (r_remote r)) eqn:Eb.
-      * right. split; [reflexivity|]. split; [reflexivity|]. split; [reflexivity|].
-        unfold append_backlog. cbn [s_backlog set_backlog set_mid].
-        clear. induction (s_backlog s) as [|[q b] l IH]; [reflexivity|]. cbn [map fst snd find_backlog].
-        destruct (q =? r_remote r) eqn:Eq; cbn [fst snd find_backlog]; rewrite Eq; [reflexivity|exact IH].
-      * left. unfold send_initially. cbn. reflexivity.
-    + left. unfold send_initially. cbn. reflexivity.
+  - destruct (suppressed m); [split; reflexivity|]. apply send_plain_cases.
 Qed.
+(* FINDING C09:non-response-code-sent: a returned Message whose code is not a response code skips the whole response branch:
+   no piggy-backing, no No-Response suppression; it goes out (or is queued) as a CON/NON of our own with the request's token *)
+Lemma send_message_non_response s r m : is_response (code_of m) = false -> send_message s r m = send_plain s r m.
+Proof. intros H. rewrite send_message_unfold, H. reflexivity. Qed.
 
 (* every response, whoever produced it (handler, error renderer, 4.04 / 4.05 / 5.00 built from exceptions), goes to the
    message layer with the request's No-Response option filled in if it had none *)
